@@ -1002,8 +1002,21 @@ func storesToStruct(fn *ssa.Function, st types.Type) bool {
 		fa, ok := v.(*ssa.FieldAddr)
 		return ok && types.Identical(deref(fa.X.Type()), st)
 	}
+	fromField := func(v ssa.Value) bool {
+		ld, ok := v.(*ssa.UnOp)
+		return ok && isField(ld.X)
+	}
 	for _, b := range fn.Blocks {
 		for _, in := range b.Instrs {
+			// updates of a map held in a field also change the object's abstract state
+			if mu, ok := in.(*ssa.MapUpdate); ok && fromField(mu.Map) {
+				return true
+			}
+			if c, ok := in.(*ssa.Call); ok {
+				if bi, isB := c.Call.Value.(*ssa.Builtin); isB && (bi.Name() == "delete" || bi.Name() == "clear") && len(c.Call.Args) > 0 && fromField(c.Call.Args[0]) {
+					return true
+				}
+			}
 			s, ok := in.(*ssa.Store)
 			if !ok {
 				continue
